@@ -796,3 +796,60 @@ def rule_e7(repo, res):
             res.add(Finding("E7", "EmptyValueAtLine", "no unconditional store of lineno",
                             "no constructor of EmptyValueAtLine stores its lineno argument in the instance's lineno attribute on "
                             "every path: the placeholder cannot say where the value is missing"))
+
+
+def rule_e8(repo, res):
+    """E8: `_empty_value(pos)` finds the parameter's '=' as the last '=' strictly before *pos* (`doc.rfind("=", 0, pos)`,
+    an exclusive end), so the position a caller hands over must not lie before the character after that '='.  The callers
+    know a token that follows the '=' (its `.pos` is at least one past it) or the '=' itself (`find("=", ..) + 1`); the
+    argument must be such a base plus a constant >= 0 -- a base reduced by a constant can exclude the very '=' when the
+    token stands directly against it, and the line of an earlier '=' is reported.  Also: the search inside
+    _empty_value ends at *pos* itself."""
+    from .canon import canon
+    n = 0
+    if "OmniParser" not in repo.classes:
+        raise AnalysisError("anchor vanished: parser.OmniParser")
+
+    def linear(e):
+        """(base text, constant) of base + c / base - c / base; None otherwise"""
+        if isinstance(e, ast.BinOp) and isinstance(e.op, (ast.Add, ast.Sub)) and isinstance(e.right, ast.Constant) \
+                and isinstance(e.right.value, int) and not isinstance(e.right.value, bool):
+            inner = linear(e.left)
+            if inner is None:
+                return None
+            return inner[0], inner[1] + (e.right.value if isinstance(e.op, ast.Add) else -e.right.value)
+        if isinstance(e, ast.BinOp) and isinstance(e.op, ast.Add) and isinstance(e.left, ast.Constant) and isinstance(e.left.value, int):
+            inner = linear(e.right)
+            return None if inner is None else (inner[0], inner[1] + e.left.value)
+        if isinstance(e, (ast.Attribute, ast.Name, ast.Call, ast.Subscript)):
+            return norm(e, 200), 0
+        return None
+    def is_eq_search(call):
+        return isinstance(call, ast.Call) and isinstance(call.func, ast.Attribute) and call.func.attr == "rfind" and call.args \
+            and isinstance(call.args[0], ast.Constant) and call.args[0].value == "="
+    for cname in sorted(repo.subclasses("OmniParser")):
+        ci = repo.classes[cname]
+        for mname, fn0 in ci.methods.items():
+            fn = canon(repo, cname, fn0, module=ci.module.name)
+            params = {a.arg for a in fn0.args.args}
+            # the position expressions: arguments of _empty_value(...) where the helper was not read in place, and the end
+            # of the backwards search for '=' where it was
+            sites = [(x, x.args[0]) for x in ast.walk(fn) if isinstance(x, ast.Call) and isinstance(x.func, ast.Attribute)
+                     and x.func.attr == "_empty_value" and x.args]
+            sites += [(x, x.args[2]) for x in ast.walk(fn) if is_eq_search(x) and len(x.args) >= 3]
+            for call, pos in sites:
+                n += 1
+                lf = linear(pos)
+                if lf is None:
+                    raise AnalysisError(f"E8: the position `{norm(pos, 80)}` in {cname}.{mname} is not of the form base + constant")
+                base, c = lf
+                # a base that is itself `find("=", ...)` is the '=': it needs + 1 at least
+                need = 1 if (".find(" in base or ".index(" in base or ".rfind(" in base) and "'='" in base.replace('"', "'") else 0
+                ok = c >= need
+                res.oblige("E8", f"{cname}.{mname}: the search for the parameter's '=' ends at `{norm(pos, 60)}`, not before the character after the '='", ok=ok)
+                if not ok:
+                    res.add(Finding("E8", f"{cname}.{mname}", f"position {norm(pos, 60)}",
+                                    f"{cname}.{mname} looks for the parameter's '=' strictly before `{norm(pos, 80)}`: when the next token "
+                                    "stands directly against the '=' the search misses it and the placeholder (and module.errors) reports "
+                                    "the line of an earlier '='", where=f"pvl/parser.py:{call.lineno}"))
+    res.floor("E8 position arguments of _empty_value", n, 4)
